@@ -15,13 +15,13 @@ PROP = {
             "page boundary; distinct by hash of the canonical case text",
     "trusted_base": [KERNEL, HARNESS_TB, "num-bigint", "safe-Rust ownership (RC::make_mut under &mut self) for clone independence",
                      "lib/memory/backing.rs stand-in (get8/permissions over disjoint sections; C16 owns the real model)"],
-    "assumptions": ["address ranges: stores with a + k < 2^64, loads with a + k <= 2^64 (a store ending exactly at 2^64 panics in an "
-                    "overflow-checked build: recorded finding, oracle silent, tie covers it)",
+    "assumptions": ["address ranges lie in the address space: stores and loads with a + k <= 2^64 (ranges ending exactly at 2^64 are "
+                    "judged; ranges that wrap 2^64 are outside the oracle, the tie still covers them)",
                     "values and loads narrower than 2^63 bits; set_permissions ranges shorter than 2^63 bytes",
                     "backing sections do not reach 2^64 and hand out u8 bytes"],
     "partial": ["V = il::Expression: simulation theorems about the denotation (eval) of expressions + a differential stream compared after evaluation; the structure of the returned expression trees is tied only through the model replay (eval of model result = eval of observed result)",
                 "clone independence is Rust ownership (trusted); the Coq statement is immediate in a pure model",
-                "store ending exactly at address 2^64 panics (debug) -- outside the theorems' hypotheses"],
+                "loads / set_permissions whose range wraps 2^64 still panic in an overflow-checked build (outside the property)"],
     "level_text": "Unbounded Coq theorems for the Gallina transcription of paged::Memory<il::Constant> (pages, cells/backrefs, three-phase store, "
                   "first-phase + byte-wise load through the Value trait, PartialEq, permissions): representation invariant preserved over all "
                   "operation sequences, store = byte-array write, load = specified assembly of the most recent bytes (all widths >= 1 byte, both "
